@@ -725,6 +725,43 @@ pub fn gen_c18_lockstep(seed: u64) -> Plan {
     Plan { prop: "C18".into(), family: "L-collide".into(), seed, cfg, sim, clients: vec![ops], chaos: vec![], finale: Finale::None, universe, tags: vec!["lockstep".into(), "under_capacity".into(), "collide".into()] }
 }
 
+/// Scale family: one client inserts thousands of distinct keys (most with the same TTL), lets the
+/// TTLs pass and the cleanup run, then inspects the quiescent state.  Constants hidden in the
+/// implementation (per-tick limits, buffer sizes, shard counts) only show at this size.
+pub fn gen_bulk(prop: &str, seed: u64) -> Plan {
+    let mut rng = Rng::new(seed ^ 0xb01c);
+    let flavor = pick_flavor(&mut rng);
+    let mut cfg = roomy_cfg(&mut rng, flavor);
+    cfg.buffer_size = 32 * 1024;
+    cfg.max_cost = 10_000_000;
+    cfg.cleanup_ms = *rng.pick(&[250u64, 500, 1000, 2000]);
+    let mut sim = sim_plan(&mut rng, false);
+    sim.max_steps = 2_000_000;
+    let n = *rng.pick(&[1200u64, 2000, 3000]);
+    let base = 1000u64;
+    let ttl = *rng.pick(&[700 * MS, SEC, 1500 * MS, 2 * SEC + 300 * MS]);
+    let mut ops = Vec::new();
+    for i in 0..n {
+        let t = if rng.chance(9, 10) { ttl } else { 0 };
+        ops.push(Op::Insert { k: base + i, cost: rng.range(1, 3) as i64, ttl_ns: t, size: 1 });
+        if i % 500 == 499 {
+            ops.push(Op::Wait);
+        }
+    }
+    ops.push(Op::Barrier);
+    ops.push(Op::Sleep { ns: ttl + SEC + cfg.cleanup_ms * MS + 10 * MS });
+    ops.push(Op::Barrier);
+    ops.push(Op::Sleep { ns: SEC + cfg.cleanup_ms * MS + 10 * MS });
+    ops.push(Op::Barrier);
+    ops.push(Op::Len);
+    // a few probes
+    for _ in 0..20 {
+        ops.push(Op::Get { k: base + rng.below(n), hold: 0 });
+    }
+    let universe: Vec<u64> = (0..8).map(|i| base + i * (n / 8)).collect();
+    Plan { prop: prop.into(), family: "L-bulk".into(), seed, cfg, sim, clients: vec![ops], chaos: vec![], finale: Finale::None, universe, tags: vec!["lockstep".into(), "under_capacity".into(), "fault_free".into(), "bulk".into()] }
+}
+
 /// Fault enumeration for C10/C11/C12: a small plan with exactly one chaos clear()/close() whose
 /// scheduling offset is enumerated (0..64) by the run index instead of sampled.
 pub fn gen_enum_chaos(prop: &str, seed: u64, variant: u64) -> Plan {
@@ -769,6 +806,7 @@ pub fn gen_plan(prop: &str, seed: u64, variant: u64) -> Plan {
     let over = std::env::var("DST_GEN").ok();
     let prop = over.as_deref().unwrap_or(prop);
     match prop {
+        "C04" | "C05" | "C06" | "C01" | "C17" if variant % 193 == 7 => gen_bulk(prop, seed),
         "C03" if variant % 4 == 2 => gen_p_family(prop, seed, &PProfile { ttl_pct: 70, lookup_pct: 45, over_capacity_pct: 30, remove_pct: 8, ..PProfile::default() }),
         "C04" if variant % 4 == 2 => gen_p_family(prop, seed, &PProfile { over_capacity_pct: 0, collide_pct: 0, ttl_pct: 30, remove_pct: 10, if_present_pct: 5, wait_pct: 5, ..PProfile::default() }),
         "C03" | "C04" => gen_ttl_family(prop, seed, variant % 4 == 3),
